@@ -1343,7 +1343,8 @@ def minimise_miri_plan(native, base, w, s_, rate, nr, wu, x86, what):
 
     best = None
     progress = True
-    while progress and used < 8:
+    budget = 2 if wu and wu > 1000 else 8   # a 65526-construction warm-up costs the interpreter many minutes per candidate
+    while progress and used < budget:
         progress = False
         cands = []
         if any(len(t) > 1 for t in threads):
@@ -1353,7 +1354,7 @@ def minimise_miri_plan(native, base, w, s_, rate, nr, wu, x86, what):
             for k in range(len(threads)):
                 cands.append(threads[:k] + threads[k + 1:])               # one thread less
         for cand in cands:
-            if used >= 8:
+            if used >= budget:
                 break
             if sum(len(t) for t in cand) >= sum(len(t) for t in threads):
                 continue
